@@ -272,10 +272,10 @@ func runC02(c *core.Ctx, r *core.Result) {
 		}
 		return
 	}
-	p := plan{fullDepth: 2, coreDepth: 3, strDepth: 1, strCoreDepth: 3, alphabet: tm.REG}
+	p := plan{dupDepth: 2, fullDepth: 2, coreDepth: 3, strDepth: 1, strCoreDepth: 3, alphabet: tm.REG}
 	subsetDepth := 1
 	if c.Thorough() {
-		p = plan{fullDepth: 3, coreDepth: 4, strDepth: 2, alphabet: tm.REG}
+		p = plan{dupDepth: 2, fullDepth: 3, coreDepth: 4, strDepth: 2, alphabet: tm.REG}
 		subsetDepth = 2
 	}
 	r.Bounds = fmt.Sprintf("e over %s; r over 15 sentinels ∪ nodes(e) ∪ fresh copy ∪ perturbed copies of e; e-histories {K, KK, U(all)>K, U({k})>K for every wire key k, evaluated also AT U(all) and U({k})}, all subsets of wire keys for depth<=%d; r-histories {local, K, through the same U}", p, subsetDepth)
